@@ -323,7 +323,13 @@ func runDownFamily(s *Sim, prop string) {
 			continue
 		}
 		// optionally read a little more right before Close so that results are pending at Close
-		op := s.Start(0, y.closeDownOp(h))
+		cl := y.closeDownOp(h)
+		if prop == "C04" && t.Bool("close-with-deadline", 1, 3) {
+			// a deadline shorter than the longer ack flush intervals: the final acks do not wait for a tick
+			cl.CtxKind, cl.Timeout = "deadline", Pick(t, "close-deadline", time.Second, 200*time.Millisecond, 5*time.Second)
+			s.Stat("env.close-with-deadline")
+		}
+		op := s.Start(0, cl)
 		s.Wait()
 		y.PumpUntil(func() bool { return op.harvested }, time.Second, 30*time.Second)
 	}
